@@ -224,7 +224,12 @@ type Obs = (BTreeMap<String, BTreeSet<String>>, Vec<String>);
 
 /// Probes a server: answers to definition / references / prepareRename / rename at fixed positions of
 /// every workspace file, then the last published diagnostics per URI.
-fn observe(lsp: &mut Lsp, dir: &std::path::Path, texts: &[String]) -> Result<Obs, LspError> {
+fn observe(lsp: &mut Lsp, dir: &std::path::Path, texts: &[String]) -> Result<(Obs, BTreeMap<String, Vec<Value>>), LspError> {
+    // one request forces the refresh that the preceding notifications made due; what has been published when its
+    // response arrives is the server's view of the current texts (a later request must not be needed to get there)
+    let first = (0..FILES.len()).find(|f| texts[*f] != ABSENT).unwrap_or(0);
+    lsp.position_request("textDocument/definition", &file_uri(&dir.join(FILES[first])), 0, 0)?;
+    let published = lsp.diags.clone();
     let mut answers = Vec::new();
     for (f, name) in FILES.iter().enumerate() {
         if texts[f] == ABSENT {
@@ -263,13 +268,13 @@ fn observe(lsp: &mut Lsp, dir: &std::path::Path, texts: &[String]) -> Result<Obs
         }
     }
     let mut diags: BTreeMap<String, BTreeSet<String>> = BTreeMap::new();
-    for (uri, ds) in &lsp.diags {
+    for (uri, ds) in &published {
         let set: BTreeSet<String> = ds.iter().map(|d| format!("{} {}", d["range"], d["message"])).collect();
         if !set.is_empty() {
             diags.insert(uri.clone(), set);
         }
     }
-    Ok((diags, answers))
+    Ok(((diags, answers), published))
 }
 
 /// Flattens a response into a sorted list of strings (locations / edits), order-insensitive.
@@ -402,7 +407,7 @@ fn run_history(disk: &[usize], steps: &[Step], located_only: Option<&'static str
                         None => ABSENT.to_owned(),
                     })
                     .collect();
-                let h = match observe(&mut lsp, &dir.path, &texts) {
+                let (h, h_published) = match observe(&mut lsp, &dir.path, &texts) {
                     Ok(o) => o,
                     Err(e) => return fail(e, i, "probe"),
                 };
@@ -429,7 +434,7 @@ fn run_history(disk: &[usize], steps: &[Step], located_only: Option<&'static str
                     st.inc("located_errors_checked");
                     let uri_of = |file: &str| file_uri(&dir.path.join(file));
                     let text_of = |file: &str| FILES.iter().position(|n| *n == file).map(|f| texts[f].clone());
-                    if let Some((class, detail)) = super::common::check_error_published(&lsp.diags, &uri_of, &text_of, &exp) {
+                    if let Some((class, detail)) = super::common::check_error_published(&h_published, &uri_of, &text_of, &exp) {
                         return vec![Violation::new(
                             "the diagnostics published for the current texts do not locate the error where the compiler does",
                             json!({"signature": format!("{prop} {class}"), "step": i, "detail": detail}),
@@ -451,7 +456,7 @@ fn run_history(disk: &[usize], steps: &[Step], located_only: Option<&'static str
                         }
                     }
                 }
-                let fr = match observe(&mut fresh, &dir.path, &texts) {
+                let (fr, _) = match observe(&mut fresh, &dir.path, &texts) {
                     Ok(o) => o,
                     Err(e) => return fail(e, i, "fresh probe"),
                 };
